@@ -341,19 +341,34 @@ def orders(vs, extras, rng):
 
 
 def corpus(rng, tier, n_random, profiles=("poly", "smooth", "smooth", "all"), depths=(2, 3, 4),
-           focus_profile="all", focus_scale=1.0, errors=None, pool_kwargs=None):
+           focus_profile="all", focus_scale=1.0, errors=None, pool_kwargs=None, want=None):
     """Expressions for the differential channels: first the FOCUSED corpus (every reduction /
     leaf kind under every one-node context - constant on either side of each operator, each
     power, each function; in the thorough tier also every pair of stacked contexts), then
     n_random random trees.  Yields (g, e).  All randomness derives from rng."""
     import random as _r
     import gen as _gen
-    probe = _gen.Gen(_r.Random(0), profile=focus_profile, **({"pool": _gen.Pool(_r.Random(0), **pool_kwargs)} if pool_kwargs else {}))
+    probe = _gen.Gen(_r.Random(0), profile=focus_profile,
+                     **({"pool": _gen.Pool(_r.Random(0), with_params=(focus_profile == "all"), **pool_kwargs)} if pool_kwargs else {}))
     size = probe.focused_size()
-    n_focus = int(size * focus_scale) if tier == "quick" else min(size * 12, 12000)
-    for i in range(n_focus + n_random):
+    # `want`: only focused items whose label (context(base)) contains one of the given substrings
+    # a scale below 1 takes an evenly spread sample of the (base x context) grid, not a prefix of it
+    full = list(range(size)) if tier == "quick" else list(range(min(size * 12, 12000)))
+    if want is not None:
+        bs, cs = probe.bases(), probe.contexts()
+        def label(i):
+            return f"{cs[(i // len(bs)) % len(cs)][0]}({bs[i % len(bs)]})"
+        full = [i for i in full if any(w in label(i) for w in want)]
+    if tier == "quick" and focus_scale < 1.0:
+        k = max(1, int(len(full) * focus_scale))
+        order = list(full)
+        _r.Random(12345).shuffle(order)
+        full = sorted(order[:k])
+    n_focus = len(full)
+    for j in range(n_focus + n_random):
         r = _r.Random(rng.random())
-        focused = i < n_focus
+        focused = j < n_focus
+        i = full[j] if focused else None
         prof = focus_profile if focused else rng.choice(list(profiles))
         pool = _gen.Pool(r, with_params=(prof == "all"), **pool_kwargs) if pool_kwargs else None
         g = _gen.Gen(r, profile=prof, pool=pool)
